@@ -531,7 +531,7 @@ func runSplit(c *vk.C, s *splitSpec) {
 	rep := func() map[string]any {
 		return map[string]any{"spec": s.desc(), "events": events, "bytes_accepted": accepted, "chunk_sizes_prefix": sizes[:min(len(sizes), 40)]}
 	}
-	site := s.G.Class
+	_ = s.G.Class
 	drain := func(afterClose bool) bool {
 		for {
 			select {
@@ -549,16 +549,16 @@ func runSplit(c *vk.C, s *splitSpec) {
 						return false
 					}
 					if int(e.Begin) < s.Off || int(e.Begin)+int(e.Length) > s.Off+s.Len || e.Length == 0 {
-						c.Violation("event", "split event outside-range "+site, fmt.Sprintf("TorData [%d,+%d) outside the writer's range [%d,+%d)", e.Begin, e.Length, s.Off, s.Len), rep())
+						c.Violation("event", "split event outside-range", fmt.Sprintf("TorData [%d,+%d) outside the writer's range [%d,+%d)", e.Begin, e.Length, s.Off, s.Len), rep())
 						return false
 					}
 					if int(e.Begin)+int(e.Length) > s.Off+accepted {
-						c.Violation("event", "split event beyond-written "+site, fmt.Sprintf("TorData [%d,+%d) reported after only %d bytes were accepted", e.Begin, e.Length, accepted), rep())
+						c.Violation("event", "split event beyond-written", fmt.Sprintf("TorData [%d,+%d) reported after only %d bytes were accepted", e.Begin, e.Length, accepted), rep())
 						return false
 					}
 					for b := int(e.Begin) / CS; b*CS < int(e.Begin)+int(e.Length); b++ {
 						if reported[b] {
-							c.Violation("event", "split event block-reported-twice "+site, fmt.Sprintf("block %d reported twice", b), rep())
+							c.Violation("event", "split event block-reported-twice", fmt.Sprintf("block %d reported twice", b), rep())
 							return false
 						}
 						reported[b] = true
@@ -572,7 +572,7 @@ func runSplit(c *vk.C, s *splitSpec) {
 						return false
 					}
 					if e.Index != uint32(s.Piece) || e.Begin%CS != 0 || int(e.Begin) < s.Off || int(e.Begin)+int(e.Length) > s.Off+s.Len || e.Length == 0 {
-						c.Violation("event", "split event bad-drop "+site, fmt.Sprintf("TorDrop{%d,%d,%d} does not lie block-aligned inside the writer's range [%d,+%d) of piece %d", e.Index, e.Begin, e.Length, s.Off, s.Len, s.Piece), rep())
+						c.Violation("event", "split event bad-drop", fmt.Sprintf("TorDrop{%d,%d,%d} does not lie block-aligned inside the writer's range [%d,+%d) of piece %d", e.Index, e.Begin, e.Length, s.Off, s.Len, s.Piece), rep())
 						return false
 					}
 					for b := int(e.Begin) / CS; b*CS < int(e.Begin)+int(e.Length); b++ {
@@ -614,7 +614,7 @@ func runSplit(c *vk.C, s *splitSpec) {
 			if cr.pos < tot {
 				// the writer stopped reading: legitimate only when its range is full
 				if accepted < s.Len {
-					c.Violation("retval", "split retval readfrom-stopped-early "+site, fmt.Sprintf("ReadFrom stopped after %d of %d offered bytes although only %d of %d range bytes were accepted (err=%v)", cr.pos, tot, accepted, s.Len, err), rep())
+					c.Violation("retval", "split retval readfrom-stopped-early", fmt.Sprintf("ReadFrom stopped after %d of %d offered bytes although only %d of %d range bytes were accepted (err=%v)", cr.pos, tot, accepted, s.Len, err), rep())
 					return
 				}
 				break
@@ -631,7 +631,7 @@ func runSplit(c *vk.C, s *splitSpec) {
 			}
 			accepted += nn
 			if nn < len(p) && err == nil {
-				c.Violation("retval", "split retval short-write-without-error "+site, fmt.Sprintf("Write accepted %d of %d bytes and returned a nil error", nn, len(p)), rep())
+				c.Violation("retval", "split retval short-write-without-error", fmt.Sprintf("Write accepted %d of %d bytes and returned a nil error", nn, len(p)), rep())
 				return
 			}
 			if !drain(false) {
@@ -639,7 +639,7 @@ func runSplit(c *vk.C, s *splitSpec) {
 			}
 			if nn < len(p) {
 				if accepted < s.Len {
-					c.Violation("retval", "split retval write-refused-early "+site, fmt.Sprintf("Write refused bytes (n=%d of %d, err=%v) although only %d of %d range bytes were accepted", nn, len(p), err, accepted, s.Len), rep())
+					c.Violation("retval", "split retval write-refused-early", fmt.Sprintf("Write refused bytes (n=%d of %d, err=%v) although only %d of %d range bytes were accepted", nn, len(p), err, accepted, s.Len), rep())
 					return
 				}
 				break
@@ -648,7 +648,7 @@ func runSplit(c *vk.C, s *splitSpec) {
 			ci++
 		}
 		if accepted > s.Len {
-			c.Violation("overrun", "split overrun accepted>length "+site, fmt.Sprintf("%d bytes accepted by a writer of length %d", accepted, s.Len), rep())
+			c.Violation("overrun", "split overrun accepted>length", fmt.Sprintf("%d bytes accepted by a writer of length %d", accepted, s.Len), rep())
 			return
 		}
 	}
@@ -675,7 +675,7 @@ func runSplit(c *vk.C, s *splitSpec) {
 			if cover[b] > 1 {
 				kind = "block-covered-twice"
 			}
-			c.Violation("tiling", "split tiling "+kind+" "+site, fmt.Sprintf("reserved block %d of piece %d is covered %d times by the writer's TorData/TorDrop events (reserved blocks %d..%d)", b, s.Piece, cover[b], firstB, lastB), rep())
+			c.Violation("tiling", "split tiling "+kind, fmt.Sprintf("reserved block %d of piece %d is covered %d times by the writer's TorData/TorDrop events (reserved blocks %d..%d)", b, s.Piece, cover[b], firstB, lastB), rep())
 			return
 		}
 	}
@@ -685,13 +685,13 @@ func runSplit(c *vk.C, s *splitSpec) {
 		in := b >= firstB && b <= lastB
 		switch {
 		case !in && after[b] != before[b]:
-			c.Violation("store", "split store outside-range-changed "+site, fmt.Sprintf("block %d outside the writer's range changed presence %v -> %v", b, before[b], after[b]), rep())
+			c.Violation("store", "split store outside-range-changed", fmt.Sprintf("block %d outside the writer's range changed presence %v -> %v", b, before[b], after[b]), rep())
 			return
 		case in && after[b] && !reported[b] && !before[b]:
-			c.Violation("store", "split store present-unreported "+site, fmt.Sprintf("block %d became present but no TorData reported it", b), rep())
+			c.Violation("store", "split store present-unreported", fmt.Sprintf("block %d became present but no TorData reported it", b), rep())
 			return
 		case in && !after[b] && reported[b]:
-			c.Violation("store", "split store reported-absent "+site, fmt.Sprintf("block %d reported by TorData but absent from the store", b), rep())
+			c.Violation("store", "split store reported-absent", fmt.Sprintf("block %d reported by TorData but absent from the store", b), rep())
 			return
 		}
 	}
@@ -713,7 +713,7 @@ func runSplit(c *vk.C, s *splitSpec) {
 	}
 	done, _, ferr := t.Pieces.Finalise(uint32(s.Piece), t.PieceHashes[s.Piece])
 	if done != expectOK {
-		c.Violation("content", fmt.Sprintf("split content hash-ok=%v-expected=%v %s", done, expectOK, site), fmt.Sprintf("after completing the piece with truth, Finalise returned done=%v err=%v; the bytes fed for the committed blocks were truth: %v", done, ferr, expectOK), rep())
+		c.Violation("content", fmt.Sprintf("split content hash-ok=%v-expected=%v", done, expectOK), fmt.Sprintf("after completing the piece with truth, Finalise returned done=%v err=%v; the bytes fed for the committed blocks were truth: %v", done, ferr, expectOK), rep())
 		return
 	}
 	c.Count("split_hash_checks", 1)
@@ -759,7 +759,7 @@ func runSplit(c *vk.C, s *splitSpec) {
 			return
 		}
 		if over > 0 {
-			c.Violation("over-release", "over-release split "+site, fmt.Sprintf("the real handler releases %d more slots than the events' blocks", over), rep())
+			c.Violation("over-release", "over-release split", fmt.Sprintf("the real handler releases %d more slots than the events' blocks", over), rep())
 			return
 		}
 	}
@@ -1641,6 +1641,16 @@ func runFetch(c *vk.C, f *fetchSpec) {
 		if len(reserved) == 0 && len(reqs) == 0 && !sawFetch {
 			c.Count("fetch_rounds_without_fetch", 1)
 			prevIF = fin
+			if rr.Discarded {
+				// a fetch too quick to be seen (padding only) completed the piece and it failed its hash
+				if !garbageStored {
+					c.Violation("content", "fetch content discarded-though-truth "+f.Style, "the piece completed and failed storrent's hash check although the server only sent truth", rep())
+					return
+				}
+				c.Count("fetch_hash_mismatch_expected", 1)
+				garbageStored = false
+				everStored = map[int]bool{}
+			}
 			continue
 		}
 		c.Count("fetch_rounds", 1)
@@ -1752,8 +1762,15 @@ func runFetch(c *vk.C, f *fetchSpec) {
 				}
 			}
 			if !broken && overAt >= 0 && cur < rEnd {
-				// the fetch stopped after an over-long body: nothing after it may be stored
-				broken = true
+				// The statement lets storrent either abandon the fetch after an over-long body or clip
+				// the surplus and go on.  If only locally generated padding follows, going on covers the
+				// rest of the range without another request; otherwise the fetch stopped here and
+				// nothing after this point may be stored.
+				if c2 := skipLocal(cur); c2 >= rEnd {
+					cur = c2
+				} else {
+					broken = true
+				}
 			} else {
 				overAt = -1
 			}
@@ -1858,9 +1875,6 @@ func runFetch(c *vk.C, f *fetchSpec) {
 				if nonzero > 1 {
 					shape = "other"
 				}
-			}
-			if shape == "other" {
-				shape = "other after=" + strings.SplitN(effBeh, "→", 2)[0]
 			}
 			c.Violation("leak-inflight", "leak-inflight "+shape, fmt.Sprintf("no fetch is active and there are no peers, yet in-flight slot %d (piece %d block %d) is %d; reserved blocks of the last fetch: %v", i, i/cpp, i%cpp, v, reserved), rep())
 			return
